@@ -1,5 +1,6 @@
 import MalVerif.Py.PreludeModel
 import MalVerif.Model.Legacy
+import MalVerif.Py.PyInt
 /-!
 # Prelude of the *translated* legacy loaders (`translators/py2lean_legacy.py`)
 
@@ -115,20 +116,7 @@ def jIter (d : PyJ) : Except LErr (List PyJ) :=
 def jIsDict : PyJ → Bool | .dict _ => true | _ => false
 def jIsList : PyJ → Bool | .list _ => true | _ => false
 
-/-- Python white space (`str.isspace`), which `int(text)` strips on both sides -/
-def pyIsSpace (c : Char) : Bool :=
-  let v := c.val
-  (9 ≤ v && v ≤ 13) || (28 ≤ v && v ≤ 32) || v == 0x85 || v == 0xa0 || v == 0x1680 || (0x2000 ≤ v && v ≤ 0x200a) ||
-  v == 0x2028 || v == 0x2029 || v == 0x202f || v == 0x205f || v == 0x3000
-
-/-- a text that CPython's `int` MAY accept: after stripping white space on both sides and one sign (`+` / `-`), a
-non-empty run of decimal digits — ASCII, or any character above 127 (a coarse stand-in for the Unicode class Nd) —
-and underscores.  (Conservative: `1__0` is in the class although `int` refuses it; plain garbage such as `abc`,
-`5.0`, `0x10`, `--5`, the empty text is not.) -/
-def pyIntLenient (t : String) : Bool :=
-  let cs := ((t.toList.dropWhile pyIsSpace).reverse.dropWhile pyIsSpace).reverse
-  let cs := match cs with | '+' :: r => r | '-' :: r => r | r => r
-  !cs.isEmpty && cs.all (fun c => c.isDigit || c == '_' || c.val > 127)
+-- `pyIsSpace`, `pyIntLenient`: `MalVerif/Py/PyInt.lean` (shared with the `mserial` / `agserial` preludes)
 
 /-- `int(x)`: an `int` is itself; a `str` that `String.toInt?` reads (ASCII digits with single underscores between them,
 optional `-`) is that number, as in Python; a `str` it refuses is a `ValueError` only when CPython's `int` refuses it
